@@ -116,6 +116,17 @@ let drv_ss args =
             x.st <- st''; emit x outs;
             say ((if kind = "S" then "s" else "a") ^ (if wres_ok r then "+" else "-"))
           end
+        | ["P"; sd; sid; data] ->
+          let x = side_of sd in
+          let (outs, r) = Sess.write_data x.st (n_of_int (int_of_string sid)) (bytes_of_hex data) in
+          emit x outs; say (if wres_ok r then "w+" else "w-")
+        | ["U"; sd; sid; k; data] ->
+          let x = side_of sd in
+          let (st', r) = Sess.stream_send x.st (n_of_int (int_of_string sid)) (nat_of_int (int_of_string k)) (bytes_of_hex data) in
+          x.st <- st';
+          let (st'', outs) = Sess.pump_all x.st in
+          x.st <- st''; emit x outs;
+          say (if wres_ok r then "s+" else "s-")
         | ["H"; sd; sid; k] ->
           let x = side_of sd in
           let (st', outs) = Sess.stream_shutdown x.st (n_of_int (int_of_string sid)) (nat_of_int (int_of_string k)) in
